@@ -28,6 +28,7 @@ type e2eItem struct {
 	Salt   int     `json:"salt,omitempty"`
 	Ov     []detOv `json:"ov,omitempty"`
 	FFC    bool    `json:"ffc,omitempty"` // an FFC happens at this frame (Lepton)
+	Poison bool    `json:"starts_with_marker_bytes,omitempty"` // Boson: the frame's first five bytes are "clear"
 	Temp   int     `json:"fpatemp_centik,omitempty"`
 	TempFF int     `json:"fpatemp_lastffc_centik,omitempty"`
 }
@@ -194,6 +195,9 @@ func (in e2eInput) pixels(it e2eItem, idx int) [][]int {
 	}
 	pix[0][0] = idx + 1
 	pix[0][1] = 7
+	if it.Poison { // little-endian: 63 6c 65 61 72 ..
+		pix[0][0], pix[0][1], pix[0][2] = 0x6c63, 0x6165, 0x1172
+	}
 	return pix
 }
 
@@ -647,6 +651,23 @@ func e2eCoq(in e2eInput, o e2eObs) string {
 var _ = math.Abs
 
 func init() {
+	// probe of the known finding: the 'clear' marker is in-band
+	runners["INBAND"] = func(rng *rand.Rand, n int, tier string, emit func(Case)) {
+		in := e2eGen(rand.New(rand.NewSource(7)), 0)
+		in.Format, in.Model = "boson", "boson"
+		in.Const, in.Throttle, in.WindowClosed, in.DiskFull = true, "off", false, false
+		in.SetRecorderDefaults = false
+		in.MinSecs, in.MaxSecs, in.PreviewSecs, in.FPS = 1, 2, 0, 2
+		var items []e2eItem
+		for k := 0; k < 30; k++ {
+			items = append(items, e2eItem{Base: 3000, Amp: 1})
+		}
+		items[7].Poison = true
+		in.Items = items
+		o := e2eRun(in)
+		emit(Case{Coq: e2eCoq(in, o), Input: in, Impl: o, Tags: []string{"probe:frame-starts-with-marker"}, Nontriv: true, Key: "inband",
+			Extra: map[string]interface{}{"finding": "frame-prefix=636c656172", "expect_fail": true}})
+	}
 	runners["E2E"] = func(rng *rand.Rand, n int, tier string, emit func(Case)) {
 		var rin e2eInput
 		if loadReplay(&rin) {
